@@ -4,5 +4,6 @@ static std::string mk(const char* text, unsigned long len) { std::string s; for 
 extern "C" {
 unsigned h_ufs(const char* text, unsigned long len, unsigned long* position, int base) { std::string s = mk(text, len); return RamUnsignedFromString(s, (std::size_t*)position, base); }
 int h_sfs(const char* text, unsigned long len, unsigned long* position, int base) { std::string s = mk(text, len); return RamSignedFromString(s, (std::size_t*)position, base); }
+unsigned h_rru(const char* text, unsigned long len, unsigned long* charactersRead) { std::string s = mk(text, len); CSVScaffold c; return c.readRamUnsigned(s, *(std::size_t*)charactersRead); }
 bool h_can(const char* text, unsigned long len, bool is_unsigned) { std::string s = mk(text, len); return is_unsigned ? canBeParsedAsRamUnsigned(s) : canBeParsedAsRamSigned(s); }
 }
